@@ -218,7 +218,7 @@ def rule_cli(rep, crate):
     checks = []
     for sb in switches(m):
         c = cond_of_switch(m, sb)
-        if c and c['root'][0] == 'place' and fields_of(c['root'][1])[-1:] == ['check'] and c['root'][1]['local'] == [l for l, n in m.names.items() if n == 'args'][0]:
+        if c and c['root'][0] == 'place' and fields_of(c['root'][1])[-1:] == ['check'] and 'Args' in m.locals[c['root'][1]['local']]:
             checks.append(c)
     if not rep.anchor(rid, 'branch on args.check in main', bool(checks)):
         return
